@@ -240,6 +240,59 @@ def facts_vmdk(rng):
     return f
 
 
+def facts_vmdk_file(rng):
+    """A descriptor *file* of any length (a few lines to several hundred KiB: many extents with long names, many / long ddb
+    entries) opened by path and as a handle: what VMDK exposes equals the text."""
+    import shutil
+    import tempfile
+    from pathlib import Path
+    from dissect.hypervisor.disk.vmdk import VMDK
+    n = rng.choice([1, 3, 40, 120, 300])
+    pad = rng.choice([0, 0, 60, 180])
+    d = tempfile.mkdtemp(prefix="verif-c14-")
+    try:
+        names = [f"disk {'x' * pad}-f{k + 1:03d}.vmdk" for k in range(n)]
+        secs = [rng.choice([1, 2, 8]) for _ in names]
+        types = [rng.choice(["FLAT", "VMFS"]) for _ in names]
+        for nm, s in zip(names, secs):
+            with open(os.path.join(d, nm), "wb") as fh:
+                fh.write(bytes(s * 512))
+        lines = [f'RW {s} {t} "{nm}"' + (" 0" if t == "FLAT" else "") for s, t, nm in zip(secs, types, names)]
+        ddb = {"ddb.adapterType": "lsilogic", "ddb.uuid": "%032x" % rng.getrandbits(128)}
+        for k in range(rng.choice([0, 5, 200, 2000])):
+            ddb[f"ddb.custom.{k}"] = "v%d-" % k + "y" * rng.choice([0, 10, 300])
+        ddb["ddb.last"] = "the last entry"
+        cid = "%08x" % rng.getrandbits(32)
+        text = enc_vmdk.descriptor_text(lines, cid=cid, create_type="twoGbMaxExtentFlat", ddb=ddb)
+        p = os.path.join(d, "big.vmdk")
+        with open(p, "w", encoding="utf-8") as fh:
+            fh.write(text)
+        f = [["descriptor_bytes", len(text), len(text)]]
+        for via in ("path", "handle"):
+            if via == "path":
+                v = VMDK(Path(p))
+            else:
+                fh = open(p, "rb")   # noqa: SIM115
+                v = VMDK(fh)
+            try:
+                dd = v.descriptor
+                f += [[f"{via}.CID", cid, dd.attr.get("CID")], [f"{via}.n_extents", n, len(dd.extents)], [f"{via}.sectors", sum(secs), dd.sectors],
+                      [f"{via}.size", sum(secs) * 512, v.size], [f"{via}.n_ddb", len(ddb), len(dd.ddb)], [f"{via}.ddb.last", "the last entry", dd.ddb.get("ddb.last")],
+                      [f"{via}.ddb", hash(repr(sorted(ddb.items()))), hash(repr(sorted(dd.ddb.items())))],
+                      [f"{via}.extents", hash(repr(list(zip(secs, types, names)))), hash(repr([(e.sectors, e.type, e.filename) for e in dd.extents]))]]
+            finally:
+                for dk in getattr(v, "disks", []):
+                    try:
+                        dk.fh.close()
+                    except Exception:  # noqa: BLE001
+                        pass
+                if via == "handle":
+                    fh.close()
+        return f
+    finally:
+        shutil.rmtree(d, ignore_errors=True)
+
+
 def facts_parallels(rng):
     from dissect.hypervisor.disk.hdd import Descriptor
     d = tempfile.mkdtemp(prefix="verif-c14p-")
@@ -320,7 +373,8 @@ def facts_qcow2(rng):
     return f
 
 
-FACTS = {"vdi": facts_vdi, "vhd": facts_vhd, "hds": facts_hds, "vhdx": facts_vhdx, "vmdk": facts_vmdk, "parallels": facts_parallels, "qcow2": facts_qcow2}
+FACTS = {"vdi": facts_vdi, "vhd": facts_vhd, "hds": facts_hds, "vhdx": facts_vhdx, "vmdk": facts_vmdk, "vmdk-file": facts_vmdk_file, "parallels": facts_parallels,
+         "qcow2": facts_qcow2}
 
 
 def run(ctx):
